@@ -108,7 +108,7 @@ def sym_int(x=0, base=None):
         if base is None:
             return builtins.int(x)
         return builtins.int(x, base)
-    if isinstance(x, p.SymInt):
+    if isinstance(x, (p.SymInt, p.SymWord)):
         return x
     if isinstance(x, p.SymBool):
         return x._i()
@@ -314,7 +314,7 @@ def sym_isinstance(x, t):
     if p is not None and isinstance(x, p.SYM_TYPES):
         ts = t if isinstance(t, tuple) else (t,)
         for c in ts:
-            if c is int and isinstance(x, (p.SymInt, p.SymBool)):
+            if c is int and isinstance(x, (p.SymInt, p.SymBool, p.SymWord)):
                 return True
             if c is bool and isinstance(x, p.SymBool):
                 return True
